@@ -341,21 +341,30 @@ func (w *c15World) progress() bool {
 	return w.quiesce()
 }
 
-// c15ShortOfWatches counts (per process) reloads/attaches after which fewer Watch
-// calls than listened keys were seen although every watch goroutine was parked.
-var c15ShortOfWatches int64
-
+// waitWatches waits for n Watch calls. It is called after reload/NewSubscriber
+// returned, i.e. after the watch goroutines were spawned. If instead every watch
+// goroutine is (repeatedly) seen parked in its loop while fewer calls were made,
+// nobody is going to call Watch any more: go on with the watchers that exist -
+// events of an unwatched key reach nobody and the oracle decides.
 func (w *c15World) waitWatches(n int, what string) bool {
-	if vk.WaitUntil(c15Watchdog, func() bool { return w.etcd.watchCount() >= n }) {
+	idleRuns := 0
+	ok := vk.WaitUntil(c15Watchdog, func() bool {
+		if w.etcd.watchCount() >= n {
+			return true
+		}
+		if c15WatchersIdle(0) {
+			idleRuns++
+		} else {
+			idleRuns = 0
+		}
+		return idleRuns >= 5
+	})
+	if w.etcd.watchCount() >= n {
 		return true
 	}
-	// Fewer watches than listened keys. If every goroutine of the package is parked in
-	// its loop nobody is going to call Watch any more: go on with the watchers that
-	// exist - events of an unwatched key reach nobody and the oracle decides. Bounded,
-	// because each occurrence costs the watchdog.
-	if c15WatchersIdle(0) && atomic.AddInt64(&c15ShortOfWatches, 1) <= 3 {
+	if ok {
 		w.m.Note("case %d: %s: expected %d Watch calls, saw %d; all watch goroutines parked - continuing with the existing watchers", w.idx, what, n, w.etcd.watchCount())
-		w.m.Count("reloads_with_fewer_watches_than_keys", 1)
+		w.m.Count("fewer_watches_than_listened_keys", 1)
 		return true
 	}
 	w.inconclusive("%s: expected %d Watch calls, saw %d within %v", what, n, w.etcd.watchCount(), c15Watchdog)
